@@ -4,7 +4,8 @@ from pyvc import sym
 from pyvc.sym import eq
 
 ID = "C08"
-CONTRACTS = ["pendulum.formatting.formatter.Formatter._format_token", "pendulum.formatting.formatter.Formatter.format"]
+CONTRACTS = ["pendulum.formatting.formatter.Formatter._format_token", "pendulum.formatting.formatter.Formatter.format",
+             "pendulum.formatting.formatter.Formatter._get_parsed_value", "pendulum.formatting.formatter.Formatter._check_parsed"]
 LEMMAS = []
 
 
@@ -39,12 +40,17 @@ ASSUMPTIONS = [
     "format(): proved for 12 concrete format strings (the named ATOM/W3C/ISO8601-extended formats, escapes [..] and \\x, every numeric token) - the real token regex is run by CPython's re on the "
     "concrete format and the replacement callback is executed symbolically per match; the expected value comes from an independent tokenizer written from the documentation",
     "getters day_of_year/day_of_week/quarter/int_timestamp/utcoffset are used through their contracts (C15, C01); the token tables are lambdas executed from their source",
-    "localized tokens (names, ordinals, AM/PM in 27 locales, L* formats), zone names, to_*_string helpers and ALL of from_format()/Formatter.parse are checked bounded (the localized part "
-    "exhaustively over the finite name tables); from_format is not proved: its parser threads a mutable dict through regex callbacks, which the executor's value model does not cover",
+    "from_format: its two pure pieces are proved - Formatter._get_parsed_value (what one token/value pair writes into the field dict: 25 numeric tokens, the YY pivot 68/69, the 12-hour "
+    "check, fraction scaling, Z/ZZ offsets in four spellings with the -23:59..+23:59 range) and Formatter._check_parsed (all 128 presence patterns of the seven fields x {no meridiem, am, pm}: "
+    "defaults from 'now', 1/0 once a larger unit is given, AM/PM arithmetic, ValueError for an hour of 13 or more). The regex assembly and the callback plumbing of Formatter.parse thread one "
+    "mutable dict through re.sub callbacks, outside the executor's immutable value model: that glue, quarter/day-of-year/weekday/timestamp completion, localized tokens (names, ordinals, AM/PM in "
+    "27 locales, L* formats), zone names and the to_*_string helpers are checked bounded (localized part exhaustively over the finite name tables)",
 ]
 EXPLANATION = ("Formatter._format_token is executed symbolically per numeric token with a symbolic DateTime: the string it builds has the documented width and its digits denote the value given "
                "by calendar arithmetic (day of year, ISO weekday, 12-hour clock, fraction prefixes, epoch seconds/milliseconds, signed hh[:]mm offset). Formatter.format is executed per concrete "
-               "format string: the result is the concatenation of token renderings and verbatim literals that an independent reading of the format prescribes.")
+               "format string: the result is the concatenation of token renderings and verbatim literals that an independent reading of the format prescribes. For from_format, "
+               "Formatter._get_parsed_value is executed per token with a symbolic digit string (the dict it updates is returned as the final value of its parameter) and "
+               "Formatter._check_parsed per presence pattern of the parsed fields with symbolic values and a symbolic 'now'.")
 
 
 def bounded(ctx):
@@ -54,8 +60,8 @@ def bounded(ctx):
 
 
 MANIFEST_ENTRY = {
-    "text": "Every numeric format token (year, month, day, day of year, weekday, ISO weekday, 24/12-hour, minute, second, each fraction width, epoch seconds and milliseconds, Z/ZZ offsets) is proved, for all DateTimes in years 1000-9999 and naive / fixed-offset / named-zone values, to render exactly the value calendar arithmetic gives, with the documented width; Formatter.format is proved for twelve concrete formats (named formats, bracket and backslash escapes) to be the concatenation an independent reading of the format prescribes. Localized names, ordinals and AM/PM in all 27 locales (exhaustive over the finite tables), zone names, the 16 to_*_string helpers, from_format round trips for 17 formats and every tz-database zone name, defaults from an injected 'now' and mismatch -> ValueError are checked bounded on the real objects.",
-    "note": "Trusted: pyvc, z3/cvc5, the symbolic-digit string model. Not proved: from_format()/Formatter.parse (mutable dict threaded through regex callbacks) - bounded only. Four genuine defects found and fixed (nl week_data nesting -> format('e') TypeError; letters inside [escaped text] read as tokens by from_format; Do token AttributeError in 14 locales; three-part zone names rejected by z). Known finding: backslash escapes in from_format.",
+    "text": "Every numeric format token (year, month, day, day of year, weekday, ISO weekday, 24/12-hour, minute, second, each fraction width, epoch seconds and milliseconds, Z/ZZ offsets) is proved, for all DateTimes in years 1000-9999 and naive / fixed-offset / named-zone values, to render exactly the value calendar arithmetic gives, with the documented width; Formatter.format is proved for twelve concrete formats (named formats, bracket and backslash escapes) to be the concatenation an independent reading of the format prescribes; for from_format the per-token field updates (Formatter._get_parsed_value, 33 token/value shapes) and the completion of missing fields from 'now' with AM/PM handling (Formatter._check_parsed, 384 presence patterns) are proved. Localized names, ordinals and AM/PM in all 27 locales (exhaustive over the finite tables), zone names, the 16 to_*_string helpers, from_format round trips for 17 formats and every tz-database zone name, defaults from an injected 'now' and mismatch -> ValueError are checked bounded on the real objects.",
+    "note": "Trusted: pyvc, z3/cvc5, the symbolic-digit string model. Not proved: the regex/callback glue of Formatter.parse (mutable dict threaded through re.sub callbacks) - bounded only. Six genuine defects found and fixed (nl week_data nesting -> format('e') TypeError; letters inside [escaped text] read as tokens by from_format; Do token AttributeError in 14 locales; three-part zone names rejected by z; Z/ZZ offsets of 24 h or more accepted; '13 PM' with 'HH A' -> TypeError). Known finding: backslash escapes in from_format.",
     "technique": "contract-based deductive verification per token and per concrete format (symbolic execution of the real formatter with symbolic DateTimes and symbolic-digit strings, z3/cvc5); bounded constructive-oracle checks for localized tokens and from_format",
     "design_ref": "DESIGN.md section 8 (C08), 12",
 }
